@@ -42,6 +42,7 @@ def dispatch (f : List String) : String :=
   | ["s.bigstr", b, a] => sBigStr b a
   | ["s.bigparse", b, t] => sBigParse b t
   | ["m.repl", s] => replOp s
+  | ["m.debug", pa, fn, src, sc] => debugOp pa fn src sc
   | ["m.opt", l, p] => optOp l p
   | ["m.exec", "run1", p, i, _] => runOptOp "1" p i
   | ["m.exec", "run2", p, i, _] => runOptOp "2" p i
